@@ -27,35 +27,101 @@ theorem requestShutdown_ren (s : Sim) (mi : Nat) (path who : String) (d : Option
       exact updMod_ren a _ mi _ _ (fun m => by simp [renMod])
     · simp only [hi, if_false]
 
+theorem emit_ren (s : Sim) (d : Bool) (ev : KEvent) (t : Nat) :
+    (renSim a s).emit d (renEv a ev) t = renSim a (s.emit d ev t) := by
+  cases d
+  · exact push_ren a s ev t
+  · exact schedule_ren a s ev t
+
+theorem startTx_ren (s : Sim) (li : Nat) (src dst : String) (lat jit tx : Nat) (m : Msg) (di : Nat) (d : Bool) :
+    startTx (renSim a s) li src dst lat jit tx (renMsg a m) di d = renSim a (startTx s li src dst lat jit tx m di d) := by
+  unfold startTx
+  have hser : (renMsg a m).serial = m.serial := rfl
+  simp only [hser, log_ren, renSim_now, pop_ren_fst]
+  have h2 : (if jit = 0 then renSim a (s.log "-" "xmit" src dst [m.serial])
+        else (renSim a (s.log "-" "xmit" src dst [m.serial])).pop.2) =
+      renSim a (if jit = 0 then s.log "-" "xmit" src dst [m.serial]
+        else (s.log "-" "xmit" src dst [m.serial]).pop.2) := by
+    by_cases hj : jit = 0 <;> simp [hj]
+  rw [h2, show KEvent.exitConn di (renMsg a m) = renEv a (.exitConn di m) from rfl, emit_ren]
+  by_cases ht : tx = 0
+  · simp only [ht, if_true]
+  · simp only [ht, if_false]
+    rw [updChan_ren a _ li _ (fun c => { c with busy := true }) (fun c => by simp [renChan])]
+    exact emit_ren a _ d (.unbusy li) _
+
+theorem transmit_ren (net : Net) (s : Sim) (li : Nat) (m : Msg) (di : Nat) (d : Bool) :
+    transmit net (renSim a s) li (renMsg a m) di d = renSim a (transmit net s li m di d) := by
+  unfold transmit
+  simp only [renSim_chans, List.getElem?_map]
+  cases net.links[li]? with
+  | none => rfl
+  | some l =>
+    cases hc : s.chans[li]? with
+    | none => rfl
+    | some c =>
+      simp only [Option.map, renChan_busy, renSim_now]
+      cases l.chan with
+      | none => exact emit_ren a s d (.deliver di m) s.now
+      | some p =>
+        obtain ⟨lat, jit, tx⟩ := p
+        simp only []
+        by_cases hb : c.busy = true
+        · simp only [hb, if_true]
+          exact updChan_ren a s li _ _ (fun c => by simp [renChan])
+        · simp only [hb]; exact startTx_ren a s li _ _ lat jit tx m di d
+
+theorem sendVia_ren (net : Net) (s : Sim) (mi li : Nat) (m : Msg) (d : Bool) :
+    sendVia net (renSim a s) mi li (renMsg a m) d = renSim a (sendVia net s mi li m d) := by
+  unfold sendVia
+  simp only [renSim_mods, List.getElem?_map, modIndex_ren]
+  cases s.mods[mi]? with
+  | none => rfl
+  | some sender =>
+    cases net.links[li]? with
+    | none => rfl
+    | some l =>
+      simp only [Option.map, renMod_active]
+      by_cases ha : sender.active = true
+      · simp only [ha, if_true]
+        cases modIndex s.mods l.dst with
+        | none => rfl
+        | some di => exact transmit_ren a net s li m di d
+      · simp only [ha]; rfl
+
+theorem signalSem_ren (m : ModRt) (name : String) : signalSem (renMod a m) name = renMod a (signalSem m name) := by
+  unfold signalSem
+  simp only [renMod_sems]
+  cases m.sems.find? (fun x => x.1 = name) with
+  | none => rfl
+  | some x =>
+    obtain ⟨n, k, ws⟩ := x
+    cases ws with
+    | nil => rfl
+    | cons w r =>
+      simp only [renMod_tasks, renMod_localq]
+      rw [updAt_map (renTask a) (fun t => { t with wait := .waiting name true }) (fun t => { t with wait := .waiting name true })
+        (fun t => by simp [renTask, renWait])]
+      rfl
+
 theorem stepSync_ren (net : Net) (s : Sim) (mi : Nat) (path : String) (ttl : Nat) (who : String) (st : Step) :
     stepSync net (renSim a s) mi path ttl who st = renSim a (stepSync net s mi path ttl who st) := by
   cases st with
   | draw => simp [stepSync]
   | draw32 => simp [stepSync]
-  | send dst kind =>
+  | send dst kind d =>
     simp only [stepSync]
     by_cases h0 : ttl = 0
     · simp [h0]
-    · simp only [h0, if_false, renSim_mods, modIndex_ren]
-      cases findLink net.links path dst with
+    · simp only [h0, if_false]
+      cases linkIndex net.links path dst with
       | none => rfl
-      | some l =>
-        cases modIndex s.mods dst with
-        | none => rfl
-        | some di =>
-          simp only [mkMsg_ren, bump_ren, log_ren, renSim_serial, renSim_now]
-          cases hc : l.chan with
-          | none =>
-            simp only []
-            rw [← push_ren]; rfl
-          | some lj =>
-            obtain ⟨lat, jit⟩ := lj
-            simp only []
-            by_cases hj : jit = 0
-            · simp only [hj, if_true]
-              rw [← push_ren]; rfl
-            · simp only [hj, if_false, pop_ren_fst, pop_ren_snd]
-              rw [← push_ren]; rfl
+      | some li =>
+        simp only [mkMsg_ren, bump_ren, log_ren, renSim_serial, renSim_now]
+        by_cases hd : d = 0
+        · simp only [hd, if_true]; exact sendVia_ren a net _ mi li _ false
+        · simp only [hd, if_false]
+          rw [← push_ren]; rfl
   | sched d kind =>
     simp only [stepSync]
     by_cases h0 : ttl = 0
@@ -68,6 +134,10 @@ theorem stepSync_ren (net : Net) (s : Sim) (mi : Nat) (path : String) (ttl : Nat
   | sel ds => rfl
   | shut => exact requestShutdown_ren a s mi path who none
   | restart d => exact requestShutdown_ren a s mi path who (some d)
+  | sig name =>
+    simp only [stepSync, log_ren]
+    exact updMod_ren a _ mi _ _ (fun m => signalSem_ren a m name)
+  | wait name => rfl
 
 theorem spawnTask_ren (m : ModRt) (tag : String) (ttl : Nat) (prog : List Step) :
     spawnTask (renMod a m) tag ttl prog = renMod a (spawnTask m tag ttl prog) := by
@@ -96,6 +166,8 @@ theorem runHandler_ren (net : Net) (mi : Nat) (path : String) (ttl : Nat) (steps
     | sel ds => simp only [runHandler]; rw [stepSync_ren]; exact ih _
     | shut => simp only [runHandler]; rw [stepSync_ren]; exact ih _
     | restart d => simp only [runHandler]; rw [stepSync_ren]; exact ih _
+    | sig n => simp only [runHandler]; rw [stepSync_ren]; exact ih _
+    | wait n => simp only [runHandler]; rw [stepSync_ren]; exact ih _
 
 /-! ### `select!` -/
 
@@ -193,6 +265,19 @@ theorem setSelecting_ren (m : ModRt) (ti : Nat) (r : List Step) (ss : List Sl) :
 theorem finishTask_ren (m : ModRt) (ti : Nat) : finishTask (renMod a m) ti = renMod a (finishTask m ti) :=
   updTask_ren a m ti _ _ (fun t => by simp [renTask, renWait])
 
+theorem semPermits_ren (m : ModRt) (name : String) : semPermits (renMod a m) name = semPermits m name := rfl
+
+theorem takePermit_ren (m : ModRt) (name : String) : takePermit (renMod a m) name = renMod a (takePermit m name) := rfl
+
+theorem enqueueWaiter_ren (m : ModRt) (ti : Nat) (r : List Step) (name : String) :
+    enqueueWaiter (renMod a m) ti r name = renMod a (enqueueWaiter m ti r name) := by
+  unfold enqueueWaiter
+  simp only []
+  rw [updTask_ren a m ti _ (fun t => { t with prog := r, wait := .waiting name false })
+    (fun t => by simp [renTask, renWait])]
+  simp only [renMod_sems]
+  cases (m.updTask ti (fun t => { t with prog := r, wait := .waiting name false })).sems.find? (fun x => x.1 = name) <;> rfl
+
 theorem runTask_ren (h : a.Inj) (net : Net) (mi : Nat) (path tag : String) (ti ttl : Nat) (prog : List Step) :
     ∀ s : Sim, runTask net a mi path tag ti ttl (renSim a s) prog =
       renSim a (runTask net Ambient.canon mi path tag ti ttl s prog) := by
@@ -228,6 +313,19 @@ theorem runTask_ren (h : a.Inj) (net : Net) (mi : Nat) (path tag : String) (ti t
     | sched d k => simp only [runTask]; rw [stepSync_ren]; exact ih _
     | shut => simp only [runTask]; rw [stepSync_ren]; exact ih _
     | restart d => simp only [runTask]; rw [stepSync_ren]; exact ih _
+    | sig n => simp only [runTask]; rw [stepSync_ren]; exact ih _
+    | wait name =>
+      simp only [runTask, renSim_mods, List.getElem?_map]
+      cases s.mods[mi]? with
+      | none => rfl
+      | some m =>
+        simp only [Option.map, semPermits_ren]
+        by_cases hp : semPermits m name = 0
+        · simp only [hp, if_true]
+          exact updMod_ren a s mi _ _ (fun m => enqueueWaiter_ren a m ti r name)
+        · simp only [hp, if_false]
+          rw [updMod_ren a s mi _ (fun m => takePermit m name) (fun m => takePermit_ren a m name), log_ren]
+          exact ih _
 
 theorem pollTask_ren (h : a.Inj) (net : Net) (s : Sim) (mi : Nat) (path : String) (ti : Nat) :
     pollTask net a (renSim a s) mi path ti = renSim a (pollTask net Ambient.canon s mi path ti) := by
@@ -259,5 +357,11 @@ theorem pollTask_ren (h : a.Inj) (net : Net) (s : Sim) (mi : Nat) (path : String
         | none =>
           simp only []
           exact updMod_ren a s' mi _ _ (fun m => setSelecting_ren a m ti t.prog ss')
+      | waiting n g =>
+        simp only [renWait]
+        cases g
+        · rfl
+        · simp only [if_true, log_ren]
+          exact runTask_ren a h net mi path t.tag ti t.ttl t.prog _
 
 end Repro
